@@ -20,7 +20,6 @@ import (
 	"testing"
 	"time"
 
-	"github.com/gorilla/mux"
 	"github.com/inbucket/inbucket/v3/pkg/config"
 	"github.com/inbucket/inbucket/v3/pkg/extension"
 	"github.com/inbucket/inbucket/v3/pkg/extension/event"
@@ -190,7 +189,7 @@ func run(c Case) *hx.Outcome {
 			knownPOP3 = conf.POP3.Addr
 		}
 	}
-	web.Router = mux.NewRouter().UseEncodedPath() // as the package initialises it
+	web.Router = hx.FreshRouter() // the package's own initial router, without routes
 	svc, err := server.FullAssembly(conf)
 	if err != nil {
 		o.Failf(pid+":harness", "FullAssembly: %v", err)
